@@ -260,6 +260,12 @@ fn main() {
     let _ = std::fs::create_dir_all(&evdir);
     std::fs::write(evdir.join(evname), serde_json::to_string_pretty(&ev).unwrap()).expect("write evidence");
 
+    // sampled event log for the offline second-opinion checker
+    if !total.log.is_empty() && !no_git {
+        let logdir = verif_dir.join("logs");
+        let _ = std::fs::create_dir_all(&logdir);
+        let _ = std::fs::write(logdir.join(format!("{}.jsonl", prop)), total.log.join("\n") + "\n");
+    }
     for l in &lines {
         println!("{}", l);
     }
